@@ -198,6 +198,15 @@ def ds_guards(ctx):
       ctx.analysed(fi)
       ctx.evaluations += 1
       vtag = ','.join(f'{k}={int(b)}' for k, b in v.items())
+      if r.op == 'ite' and q != 'sharded_update_fn':
+        # the early `return states`: taken exactly when there is nothing to precondition
+        from ..lib import when_empty
+        ve = when_empty(r.args[0])
+        unchanged = r.args[1] if ve else r.args[2]
+        ok_e = ve is not None and unchanged.op == 'sym' and unchanged.args[-1] == 'states'
+        ctx.ob('C04.K2', fi.short, f'states returned unchanged only when there are no statistics [{vtag}]', ok_e,
+               f'the early return of the incoming states must be taken exactly when no parameter is preconditioned; test `{show(r.args[0], maxdepth=3)[:100]}` '
+               f'returns `{show(unchanged, maxdepth=2)[:60]}` in that case', ctx.loc(fi), sample='if not packed_statistics: return states')
       count_term = sym('param', fi.short, 'step') if q != 'sharded_update_fn' else None
       # refresh conds = conds whose taken arm contains the root computation and whose other arm does not
       cons0 = D.constructor_calls(ev, cls, '.' + q)
@@ -259,6 +268,7 @@ def ds_guards(ctx):
                    f'the preconditioner refresh must not touch `{s_}`', ctx.loc(fi), trivial=True, sample=f'{s_} = state.{s_}')
   ctx.need('C04.K2', n_guards, 6, 'refresh guards in Distributed Shampoo')
   dispatcher(ctx)
+  scheduled_flag(ctx)
   sharded_metrics(ctx)
 
 
@@ -302,6 +312,35 @@ def _unguarded_roots(t):
                 rec(z, guarded)
   rec(t, False)
   return out
+
+
+def scheduled_flag(ctx):
+  """K6b: the three refresh functions agree on when the preconditioning interval is scheduled - exactly when
+  decay_preconditioning_compute_steps and end_preconditioning_compute_steps are set and the learning rate is a schedule -
+  and hand that flag to the dispatcher (an `or` here makes the traced interval a python int in one mode and a tracer in
+  another)."""
+  m = ctx.model
+  cmpr = Comparer()
+  cfg = lambda n: sym('cfg', D.F, n)
+  n = 0
+  for q in ('_pmap_compute_preconditioners', '_pmap_quantized_compute_preconditioners', 'sharded_update_fn'):
+    fi = m.func(D.MOD, D.F + '.' + q)
+    ctx.analysed(fi)
+    ev = evaluator(m, opaque=D.OPAQUE | {'_update_preconditioners_fn', '_convert_to_parameter_stats', '_convert_from_parameter_stats',
+                                          '_add_metrics_into_local_stats', 'pad_and_maybe_zero_preconditioners'},
+                   summaries={'efficient_cond': econd_summary})
+    ev.run(fi)
+    ctx.evaluations += 1
+    exp = spec_term(ev, 'd and e and callable(lr)', {'d': cfg('decay_preconditioning_compute_steps'), 'e': cfg('end_preconditioning_compute_steps'),
+                                                     'lr': cfg('learning_rate')})
+    for c in [c for c in ev.calls if c.callee.endswith('._update_preconditioners_fn')]:
+      n += 1
+      got = c.args.get('scheduled', NONE)
+      ctx.ob('C04.K6', fi.short, 'interval is scheduled iff decay and end are set and the learning rate is a schedule', cmpr.same(got, exp),
+             f'the `scheduled` flag handed to the dispatcher must be decay_preconditioning_compute_steps and end_preconditioning_compute_steps and '
+             f'callable(learning_rate); got `{show(got, maxdepth=4)[:200]}`', ctx.loc(fi, c.node) if c.node is not None else ctx.loc(fi),
+             sample='decay and end and callable(learning_rate)')
+  ctx.need('C04.K6', n, 3, 'dispatcher calls')
 
 
 def dispatcher(ctx):
